@@ -193,17 +193,17 @@ theorem C11_monotone (lib : Geom → Rat → Rat → Option Geom) (g r r' : Geom
   | timeStamp t =>
     rw [e1 t hv] at hr; obtain rfl := Option.some.inj hr; rw [e1' t hv] at hr'; obtain rfl := Option.some.inj hr'
     clear e1 e2 e3 e1' e2' e3'
-    simp only [valid, okTime, okPt, Bool.and_eq_true, decide_eq_true_eq] at hv
+    simp only [valid, okTime, decide_eq_true_eq] at hv
     intro p hp; simp only [mem] at *; grind
   | timeInterval s e =>
     rw [e2 s e hv] at hr; obtain rfl := Option.some.inj hr; rw [e2' s e hv] at hr'; obtain rfl := Option.some.inj hr'
     clear e1 e2 e3 e1' e2' e3'
-    simp only [valid, okTime, okPt, Bool.and_eq_true, decide_eq_true_eq] at hv
+    simp only [valid, okTime, Bool.and_eq_true, decide_eq_true_eq] at hv
     intro p hp; simp only [mem] at *; grind
   | boundingBox s l e h =>
     rw [e3 s l e h hv] at hr; obtain rfl := Option.some.inj hr; rw [e3' s l e h hv] at hr'; obtain rfl := Option.some.inj hr'
     clear e1 e2 e3 e1' e2' e3'
-    simp only [valid, okTime, okPt, Bool.and_eq_true, decide_eq_true_eq] at hv
+    simp only [valid, okPt, Bool.and_eq_true, decide_eq_true_eq] at hv
     intro p hp; simp only [mem] at *; grind
   | _ => simp [closedForm] at hc
 
